@@ -26,6 +26,20 @@ SCENARIOS = {
     "autopong_vs_2_senders_deflate": {"deflate": True, "threads": {"A": [["send_text", P("A", 0)]], "B": [["send_text", P("B", 0)]]},
                                       "loop": {"bytes": PINGS2, "idle_waits": 0}, "copts": {"ping_rate": 0}},
 }
+NCT = "permessage-deflate; client_no_context_takeover"
+SCENARIOS.update({
+    # client_no_context_takeover: every message is deflated on its own, but the compressor object is
+    # still shared by all senders
+    "2x1_text_deflate_nct": {"deflate": True, "extension": NCT,
+                             "threads": {"A": [["send_text", P("A", 0)]], "B": [["send_text", P("B", 0)]]}},
+    "2x2_deflate_nct": {"deflate": True, "extension": NCT,
+                        "threads": {"A": [["send_text", P("A", 0)], ["send_binary", P("A", 1)]],
+                                    "B": [["send_binary", P("B", 0)], ["send_text", P("B", 1)]]}},
+    # a compressed sender, an uncompressed sender and a control sender at once
+    "mixed_compress_flags": {"deflate": True,
+                             "threads": {"A": [["send_text", P("A", 0)]], "B": [["send_text_raw", P("B", 0)]],
+                                         "C": [["send_ping", "C-0:ping"]]}},
+})
 BOUND2 = ["2x1_text_plain", "2x1_text_deflate", "2x1_text_binary_deflate", "2x1_text_ping_deflate"]
 _BASE = {}
 
@@ -55,7 +69,7 @@ def judge(scn, out):
     frames, problems = wire.decode_client_frames(out.wire)
     if problems:
         return "torn_or_invalid_frames", "; ".join(problems[:3])
-    peer = deflateref.Peer()
+    peer = deflateref.Peer(client_nct="client_no_context_takeover" in scn.get("extension", ""))
     seen = []
     for i, f in enumerate(frames):
         body = f.payload
@@ -74,7 +88,8 @@ def judge(scn, out):
         for call, result, mro in res:
             if result != "ok":
                 return "send_failed", "thread %s: %s raised %s on an open connection" % (name, call[0], result)
-            op = {"send_text": wire.TEXT, "send_binary": wire.BINARY, "send_ping": wire.PING, "send_pong": wire.PONG}[call[0]]
+            op = {"send_text": wire.TEXT, "send_text_raw": wire.TEXT, "send_binary": wire.BINARY, "send_ping": wire.PING,
+                  "send_pong": wire.PONG}[call[0]]
             mine.append((op, call[1].encode("utf-8")))
         expected.append((name, mine))
     lib = []
@@ -147,7 +162,8 @@ class C11(Prop):
                         s = step - 1
                         for t in names:
                             if t != who and done_after.get(t, 10 ** 9) >= step:
-                                yield {"scn": name, "order": list(order), "first": [s, t], "sweep2": name in bound2}
+                                yield {"scn": name, "order": list(order), "first": [s, t], "sweep2": name in bound2,
+                                       "chain2": len(names) >= 3 and name not in bound2}
         return [Enumeration("all_orders_x_single_preemptions" + ("_and_pairs" if bound2 else ""), cases, exhaustive=True)]
 
     def bound2(self):
@@ -166,8 +182,8 @@ class C11(Prop):
             return {"scn": name, "order": list(order), "preempt": sorted(pre)}
         return case()
 
-    def run_one(self, scn, schedule, labels, sub, key):
-        out = rc.run_schedule(scn, schedule)
+    def run_one(self, scn, schedule, labels, sub, key, keep_log=False):
+        out = rc.run_schedule(scn, schedule, keep_log=keep_log)
         took = len(out.taken)
         nontrivial = took > 0
         sub.append((key, nontrivial))
@@ -192,13 +208,32 @@ class C11(Prop):
             return held(labels, nontrivial)
         first = case["first"]
         schedule = {"order": case["order"], "preempt": [first] if first else []}
-        out, bad = self.run_one(scn, schedule, labels, sub, "1")
+        out, bad = self.run_one(scn, schedule, labels, sub, "1", keep_log=bool(first and case.get("chain2")))
         took = bool(out.taken)
         if bad:
             return failed(bad[0], bad[1], labels, took)
         if first and not took:
             labels.add("vacuous_preemption")
             return held(labels, False)
+        if first and case.get("chain2") and took:
+            # "preempt, let the other thread run to its end, then hand over to a THIRD thread instead of
+            # resuming the preempted one": a second preemption placed right after the thread switched
+            # to has finished (three-actor races such as sender / pinger / closer)
+            names = thread_names(scn)
+            t = first[1]
+            ends = [step for step, who, _ in out.log if who == t]
+            if ends:
+                end_t = ends[-1]
+                resumed = next((who for step, who, _ in out.log if step == end_t + 1), None)
+                for s2 in (end_t + 1,):       # the first step of whoever resumes after t has finished
+                    for u in names:
+                        if u == t or u == resumed:
+                            continue
+                        out2, bad = self.run_one(scn, {"order": case["order"], "preempt": [first, [s2, u]]}, labels, sub,
+                                                 "c2:%d:%s" % (s2, u))
+                        if bad:
+                            return failed(bad[0], bad[1], labels, True, sub[1:])
+            return held(labels, took, sub[1:])
         if first and case.get("sweep2"):
             names = thread_names(scn)
             for s2 in range(first[0] + 1, out.steps):
